@@ -106,6 +106,9 @@ pub fn run_prompt(args: Vec<String>) {
                 for (i, stmt) in program.statements.into_iter().enumerate() {
                     let mut single = Program::default();
                     single.statements.push(stmt);
+                    // the statement that fails at run time leaves no binding of its own behind
+                    // (its constants stay: a value it stored before failing may refer to them)
+                    let before = symtab.clone();
                     let mut compiler = Compiler::new_with_state(symtab, constants);
                     if let Err(e) = compiler.compile(single) {
                         // cannot happen after the dry run; keep the state consistent anyway
@@ -123,6 +126,7 @@ pub fn run_prompt(args: Vec<String>) {
                     if let Err(err) = err {
                         eprintln!("{}", err);
                         globals = vm.globals;
+                        symtab = before;
                         break;
                     }
                     // Get the object at the top of the VM's stack
